@@ -34,7 +34,7 @@ def pick_addr(rng, ars, n):
     t = rng.random()
     if t < 0.08:
         return rng.choice([M64 - 1, M64 - 2, M64 - 8, M64 - 16, M64 - n if n else M64 - 1, 0, 1, BASE - 1])
-    return max(0, s + rng.choice([-1, 0, 0, 1, ln - n - 1, ln - n, ln - n, ln - n + 1, ln - 1, ln, ln + 1, rng.randrange(0, ln)]))
+    return max(0, s + rng.choice([-1, 0, 0, 1, ln - n - 1, ln - n, ln - n, ln - n + 1, ln - 1, ln, ln + 1, rng.randrange(0, max(1, ln))]))
 
 
 def pick_len(rng, ars):
@@ -45,6 +45,66 @@ def pick_len(rng, ars):
     return rng.choice([0, 1, 1, 2, 3, 4, 8, 16, ln, ln + 1, ln - 1 if ln > 1 else 1])
 
 
+def resize(rng, b, ars):
+    """shrink / grow one area (the believed layout `ars` is updated optimistically: a refused resize only makes later
+    accesses probe slightly different offsets; the specification, not this list, decides every outcome)"""
+    k = rng.randrange(len(ars))
+    s, ln = ars[k]
+    new = max(0, rng.choice([ln - 1, ln - 2, ln - 5, ln // 2, ln + 1, ln + 3, ln + 9, 1, ln]))
+    b.api(op="mem_resize_section", start=s, new=new)
+    nxt = min([a for a, _ in ars if a > s] or [1 << 40])
+    if s + new <= nxt:
+        ars[k] = (s, new)
+    return s, ln, new
+
+
+def shrink_regrow_scenarios(rng, n):
+    """histories in which an area is shrunk and grown again: bytes beyond the new end are unmapped for every access path
+    (also for an access that only runs over it), and come back as zeros when the area grows again"""
+    scs = []
+    loads = [t for t, v in mc.TEMPLATES.items() if v[1] == "load"]
+    stores = [t for t, v in mc.TEMPLATES.items() if v[1] in ("store", "sti", "rmw")]
+    for k in range(n):
+        b = mc.Builder(f"srg{k}")
+        ln = rng.choice([16, 24, 33, 40])
+        b.api(op="mem_init_area", start=BASE, data=[rng.randrange(1, 256) for _ in range(ln)])
+        if rng.random() < 0.5:
+            b.api(op="mem_write_bytes", addr=BASE + ln - 8, data=[0x11] * 8)
+        cur = ln
+        for _ in range(rng.choice([1, 2, 3])):
+            new = rng.choice([cur - 1, cur - 4, cur - 8, cur // 2, max(1, cur - 12)])
+            new = max(1, new)
+            b.api(op="mem_resize_section", start=BASE, new=new)
+            # accesses inside, straddling the new end, and in the released part
+            for _ in range(rng.choice([1, 2, 3])):
+                w = rng.choice([1, 2, 4, 8, 16])
+                addr = BASE + max(0, new - w + rng.choice([-1, 0, 1, 1, 2, w - 1, w, w + 2]))
+                u = rng.random()
+                if u < 0.25:
+                    b.api(op="mem_read_bytes", addr=addr, len=w)
+                elif u < 0.40:
+                    b.api(op="mem_read", w=w * 8, addr=addr)
+                elif u < 0.55:
+                    b.api(op="mem_write_bytes", addr=addr, data=[rng.randrange(1, 256) for _ in range(w)])
+                elif u < 0.80:
+                    t = rng.choice([x for x in loads if mc.TEMPLATES[x][2] == w] or loads)
+                    b.guest(t, BASE + max(0, new - mc.TEMPLATES[t][2] + rng.choice([0, 1, 1, mc.TEMPLATES[t][2] - 1, mc.TEMPLATES[t][2]])))
+                else:
+                    t = rng.choice([x for x in stores if mc.TEMPLATES[x][2] == w] or stores)
+                    b.guest(t, BASE + max(0, new - mc.TEMPLATES[t][2] + rng.choice([0, 1, 1, mc.TEMPLATES[t][2] - 1, mc.TEMPLATES[t][2]])))
+            if rng.random() < 0.7:
+                grown = new + rng.choice([1, 4, 8, cur - new, cur - new + 4, 16])
+                b.api(op="mem_resize_section", start=BASE, new=grown)
+                b.api(op="mem_read_bytes", addr=BASE + max(0, new - 2), len=min(grown - max(0, new - 2), 24))
+                if rng.random() < 0.5:
+                    b.guest("load64", BASE + min(new, grown - 8))
+                cur = grown
+            else:
+                cur = new
+        scs.append(b.scenario())
+    return scs
+
+
 def api_scenarios(rng, n, length):
     scs = []
     for k in range(n):
@@ -52,7 +112,9 @@ def api_scenarios(rng, n, length):
         ars = layout(rng, b)
         for _ in range(length):
             t = rng.random()
-            if t < 0.30:
+            if t < 0.07:
+                resize(rng, b, ars)
+            elif t < 0.30:
                 ln = pick_len(rng, ars)
                 b.api(op="mem_read_bytes", addr=pick_addr(rng, ars, ln if ln < 64 else 1), len=ln)
             elif t < 0.55:
@@ -83,6 +145,9 @@ def guest_scenarios(rng, n, length):
         b = mc.Builder(f"guest{k}")
         ars = layout(rng, b)
         for _ in range(length):
+            if rng.random() < 0.06:
+                resize(rng, b, ars)
+                continue
             t = rng.choice(GUEST)
             nb = mc.TEMPLATES[t][2]
             addr = pick_addr(rng, ars, nb)
@@ -154,6 +219,7 @@ def run(tier, seed):
         sc2 = api_scenarios(rng, 250 if q else 4000, 14 if q else 24)
         n2, s2, _ = mc.validate(sc2, wd, "api", rep, 8 if q else 14)
         sc3 = guest_scenarios(rng, 200 if q else 3000, 8 if q else 14)
+        sc3 += shrink_regrow_scenarios(rng, 120 if q else 2500)
         n3, s3, _ = mc.validate(sc3, wd, "guest", rep, 8 if q else 14)
         kinds = set()
         for s in sc1 + sc2 + sc3:
